@@ -99,11 +99,14 @@ pub struct Handler { pub script: Arc<Value>, pub log: Rec }
 type BoxStream = Pin<Box<dyn tokio_stream::Stream<Item = Result<Vec<u8>, Status>> + Send>>;
 /// The handler's response stream: every item ready at once, and NOT fused - if it is polled again after it has ended it says so
 /// with an error item (a stream is allowed to do anything then), so that such a poll becomes visible to the caller.
-struct StrictStream { items: std::collections::VecDeque<Result<Vec<u8>, Status>>, ended: bool, complained: bool }
+struct StrictStream { items: std::collections::VecDeque<Result<Vec<u8>, Status>>, ended: bool, complained: bool, pend_before: Vec<usize>, k: usize, pended: bool }
 impl tokio_stream::Stream for StrictStream {
     type Item = Result<Vec<u8>, Status>;
-    fn poll_next(mut self: Pin<&mut Self>, _cx: &mut Context<'_>) -> Poll<Option<Self::Item>> {
+    fn poll_next(mut self: Pin<&mut Self>, cx: &mut Context<'_>) -> Poll<Option<Self::Item>> {
         if self.ended { if self.complained { return Poll::Ready(None); } self.complained = true; return Poll::Ready(Some(Err(Status::data_loss("handler stream polled after it had ended")))); }
+        // script.stream_pend: positions (item indices, the end counts as one more) before which the stream is Pending once
+        if !self.pended && self.pend_before.contains(&self.k) { self.pended = true; cx.waker().wake_by_ref(); return Poll::Pending; }
+        self.pended = false; self.k += 1;
         match self.items.pop_front() { Some(x) => Poll::Ready(Some(x)), None => { self.ended = true; Poll::Ready(None) } }
     }
 }
@@ -136,7 +139,8 @@ impl Handler {
         if sc["fail_before"].as_bool().unwrap_or(false) { return Err(script_status(&sc["end"])); }
         let mut items: Vec<Result<Vec<u8>, Status>> = sc["msgs"].as_array().cloned().unwrap_or_default().iter().map(|m| Ok(json_bytes(m))).collect();
         if !sc["end"]["ok"].as_bool().unwrap_or(true) { items.push(Err(script_status(&sc["end"]))); }
-        let mut r = Response::new(Box::pin(StrictStream { items: items.into(), ended: false, complained: false }) as BoxStream);
+        let pend_before: Vec<usize> = sc["stream_pend"].as_array().map(|a| a.iter().filter_map(|x| x.as_u64()).map(|x| x as usize).collect()).unwrap_or_default();
+        let mut r = Response::new(Box::pin(StrictStream { items: items.into(), ended: false, complained: false, pend_before, k: 0, pended: false }) as BoxStream);
         let (m, _) = build_meta(&sc["init_meta"]);
         *r.metadata_mut() = m;
         if sc["no_compress"].as_bool().unwrap_or(false) { r.disable_compression(); }
@@ -385,7 +389,8 @@ pub fn rand_script(rng: &mut impl Rng, shape: &str) -> Value {
         let dn = rng.gen_range(0..6);
         json!({"ok":false,"code":rng.gen_range(1..17),"msg":str_json(msg),"details":bytes_json(&rb(rng, dn)),"meta":crate::labs::status::rand_meta(rng)})
     };
-    json!({"init_meta": crate::labs::status::rand_meta(rng), "msgs": msgs, "end": end, "fail_before": !single && !ok && rng.gen_bool(0.3), "no_compress": rng.gen_bool(0.15)})
+    let stream_pend: Vec<usize> = (0..=k + 1).filter(|_| rng.gen_bool(0.25)).collect();
+    json!({"init_meta": crate::labs::status::rand_meta(rng), "msgs": msgs, "end": end, "fail_before": !single && !ok && rng.gen_bool(0.3), "no_compress": rng.gen_bool(0.15), "stream_pend": stream_pend})
 }
 pub fn gen(seed: u64, tier: &str) -> Vec<Value> {
     let mut rng = rand::rngs::StdRng::seed_from_u64(seed ^ 0xC02);
